@@ -88,6 +88,23 @@ Definition draw (ivs : intervals) (window : option (Z * Z)) (w : Z) : res Z :=
   | Some (t_min, t_max) => do arr <- between ivs t_min t_max; draw_on arr w
   end.
 
+(* draw_ontimes with optional bounds, as the code treats them: a bound is "not
+   given" only when it is None (a bound of 0 IS given); a missing bound is
+   replaced by time_start / time_stop = first lower / last upper edge. *)
+Definition time_start (ivs : intervals) : res Z :=
+  match ivs with [] => Err IndexError | (l, _) :: _ => Ok l end.
+Definition time_stop (ivs : intervals) : res Z :=
+  match ivs with [] => Err IndexError | _ => Ok (last (map snd ivs) 0) end.
+
+Definition draw_opt (ivs : intervals) (t_min t_max : option Z) (w : Z) : res Z :=
+  if draw_has_window t_min t_max then
+    do a <- (if draw_tmin_missing t_min then time_start ivs
+             else match t_min with Some a => Ok a | None => Err TypeError end);
+    do b <- (if draw_tmax_missing t_max then time_stop ivs
+             else match t_max with Some b => Ok b | None => Err TypeError end);
+    do arr <- between ivs a b; draw_on arr w
+  else draw_on ivs w.
+
 (* get_data_subset: kept event times and the live time of the subset *)
 Definition subset_events (times : list Z) (t_start t_stop : Z) : list Z :=
   filter (fun t => subset_keep t_start t_stop t t) times.
